@@ -29,7 +29,7 @@ RULE = ('One case = one generated chart + one input history; the base build (API
         'states of equal depth AND whose permuted builds really changed a sibling order.')
 ASSUMPTIONS = ['order of guard *evaluation* is not part of a macro step and is not compared',
                'generator domain of DESIGN §2; hash seeds sampled, not enumerated']
-REQUIRED_COUNTERS = ['variant_runs_compared', 'yaml_variants', 'api_variants', 'hashseed_children', 'hashseed_digests_compared',
+REQUIRED_COUNTERS = ['edited_variants', 'variant_runs_compared', 'yaml_variants', 'api_variants', 'hashseed_children', 'hashseed_digests_compared',
                      'cases_with_same_depth_exits']
 
 MODES = [('orth', 4, dict(p_orth=0.5, p_state_send=0.15)), ('clash', 2, dict(p_orth=0.4)),
@@ -140,7 +140,16 @@ def run_case(acc, rnd, tier, case):
     for v in range(T['perms']):
         trans = list(ch['transitions'])
         rnd.shuffle(trans)
-        if v % 2 == 0:
+        if v % 3 == 2:
+            r_ = build.build_edited(ch, rnd)
+            if r_ is None:
+                continue
+            sc, tmap, detours = r_
+            acc.count('edited_variants')
+            what = 'build reached through a detour of edits %r' % (detours,)
+            extra = dict(detours=detours)
+            changed_sibling_order = True
+        elif v % 2 == 0:
             order = permuted_order(rnd, ch)
             sc, tmap = build.build_api(ch, order=order, transitions=trans)
             acc.count('api_variants')
